@@ -153,7 +153,7 @@ func findClosest(query fastaio.EncodedFastaRecord, measure string, cIn chan fast
 			continue
 		}
 
-		if distance < closest.distance {
+		if distance < closest.distance || (math.IsNaN(closest.distance) && !math.IsNaN(distance)) {
 			snps = make([]string, 0)
 			for i, tNuc := range target.Seq {
 				if (query.Seq[i] & tNuc) < 16 {
